@@ -148,6 +148,9 @@ func buildWorkflow(s *spec.Spec) (*sp.Workflow, map[string]*node) {
 			if ps.NoSpawn {
 				p.Spawn = false
 			}
+			if ps.Cores == -1 {
+				p.CoresPerTask = 0 // a light-weight helper step that is not throttled
+			}
 			if ps.Cores > 0 {
 				p.CoresPerTask = ps.Cores
 			}
